@@ -18,6 +18,7 @@ CONSTANTS KernelSet,            \* case families to enumerate (strings below)
           DSet,                 \* rows / columns of the two-operand kernels, the vectors and the tensor slices
           SliceSet,             \* numbers of tensor slices
           SortCols,             \* column counts of the matrices that are sorted
+          SeedSet,              \* operand fills per shape (0 = the base fill)
           DoEmit                \* TRUE: print every case with its expected results; FALSE: laws only
 
 (* ---- deterministic operand fill over -5..5 (no period below 31 in either index) ---- *)
@@ -61,8 +62,8 @@ Perms(n) == {f \in [1..n -> 1..n] : \A a, b \in 1..n : a # b => f[a] # f[b]}
 SortResults(d, key, rev) == {[i \in 1..Len(d) |-> d[p[i]]] : p \in {q \in Perms(Len(d)) : Ordered([i \in 1..Len(d) |-> d[q[i]]], key, rev)}}
 
 (* ---- the enumerated case space -------------------------------------------------------------------- *)
-VARIABLES kern, r, k, c, st
-vars == <<kern, r, k, c, st>>
+VARIABLES kern, r, k, c, sd, st
+vars == <<kern, r, k, c, sd, st>>
 TwoDim == {"MatVec", "VecMat", "Outer", "Transpose", "Trace", "Norm", "ColStats", "Covariance"}
 RowsOf(f) == IF f = "MatrixDotProduct" THEN RSet \cup XRC ELSE DSet
 KCOf(f, rr) ==
@@ -71,25 +72,26 @@ KCOf(f, rr) ==
     [] f = "DVector" -> {<<0, 1>>}
     [] f = "Tensor" -> SliceSet \X DSet
     [] f = "Sort" -> {<<kk, cc>> \in SortCols \X SortCols : kk <= cc}       \* k = key column (1-based)
-Init == kern \in KernelSet /\ r \in RowsOf(kern) /\ k = 0 /\ c = 0 /\ st = 0
-Next == /\ st = 0 /\ st' = 1 /\ UNCHANGED <<kern, r>>
+Init == kern \in KernelSet /\ r \in RowsOf(kern) /\ sd \in SeedSet /\ k = 0 /\ c = 0 /\ st = 0
+Next == /\ st = 0 /\ st' = 1 /\ UNCHANGED <<kern, r, sd>>
         /\ \E kc \in KCOf(kern, r) : k' = kc[1] /\ c' = kc[2]
 Spec == Init /\ [][Next]_vars
 
 (* operands of the current case *)
-A == FillMat(1, r, k)
-B == FillMat(2, k, c)
-C == FillMat(3, k, c)
-M == FillMat(4, r, c)
-Vc == FillVec(5, c)
-Vr == FillVec(6, r)
-Wr == FillVec(7, r)
-Ten == [s \in 1..k |-> FillMat(10 + s, r, c)]
-Mck == FillMat(8, c, k)
-Ms == FillMat(9, r, c)
+S(i) == i + 17 * sd
+A == FillMat(S(1), r, k)
+B == FillMat(S(2), k, c)
+C == FillMat(S(3), k, c)
+M == FillMat(S(4), r, c)
+Vc == FillVec(S(5), c)
+Vr == FillVec(S(6), r)
+Wr == FillVec(S(7), r)
+Ten == [s \in 1..k |-> FillMat(S(10 + s), r, c)]
+Mck == FillMat(S(8), c, k)
+Ms == FillMat(S(9), r, c)
 
 CaseRec ==
-  LET hd == [kern |-> kern, r |-> r, k |-> k, c |-> c] IN
+  LET hd == [kern |-> kern, r |-> r, k |-> k, c |-> c, sd |-> sd] IN
   CASE kern = "MatrixDotProduct" -> hd @@ [inp |-> <<A.d, B.d>>, out |-> <<MatMul(A, B).d>>]
     [] kern = "MatVec" -> hd @@ [inp |-> <<M.d, Vc>>, out |-> <<MatVec(M, Vc)>>]
     [] kern = "VecMat" -> hd @@ [inp |-> <<M.d, Vr>>, out |-> <<VecMat(Vr, M)>>]
